@@ -469,8 +469,13 @@ def slot_kind(prog, fn, pv, vl, agg, name):
             n = got[frozenset(["Null"])]
             okb = b == ("aggr", "core::option::Option", "Some", (("0", ("aggr", "context::Nonce", "Bytes", (("0", ("field", ("variant", elem, "Bytes"), "0")),))),))
             oki = (i[0] == "aggr" and i[2] == "Some" and i[3][0][1][0] == "aggr" and i[3][0][1][1] == "context::Nonce" and i[3][0][1][2] == "Integer"
-                   and i[3][0][1][3][0][1][0] == "tryok" and is_call(i[3][0][1][3][0][1][1], TRY_INTO)
-                   and i[3][0][1][3][0][1][1][2][0] == ("field", ("variant", elem, "Integer"), "0"))
+                   and i[3][0][1][3][0][1][0] == "tryok" and is_call(i[3][0][1][3][0][1][1], TRY_INTO))
+            if oki:
+                # the narrowed value is the Integer payload of this element: taken by the match pattern, or again through
+                # try_as_integer()? on the element (known to be an Integer on this arm)
+                src_ = i[3][0][1][3][0][1][1][2][0]
+                oki = src_ == ("field", ("variant", elem, "Integer"), "0") or (
+                    src_[0] == "tryok" and is_call(src_[1], TRY_INTEGER) and src_[1][2] == (elem,))
             if okb and oki and n[2] == "None":
                 site = fn.blocks[i[3][0][1][3][0][1][1][3][1]]["term"]["callee"]
                 d["kind"] = "bstr/int<%s>/nil" % site["args"][1]
